@@ -43,7 +43,9 @@ type Entry struct {
 	Stack    string // panic stack
 }
 
-func (e Entry) Terminal() bool { return e.Class == ClsEOF || e.Class == ClsFatal || e.Class == ClsPanic }
+func (e Entry) Terminal() bool {
+	return e.Class == ClsEOF || e.Class == ClsFatal || e.Class == ClsPanic
+}
 
 // Key is what two executions of the same build must agree on.
 func (e Entry) Key() string {
@@ -68,12 +70,12 @@ func clip(s string, n int) string {
 
 // Transcript is the observable behaviour of one transform.
 type Transcript struct {
-	SchemaErr    string
-	SchemaPanic  string
-	TransformErr string
+	SchemaErr      string
+	SchemaPanic    string
+	TransformErr   string
 	TransformPanic string
-	Entries      []Entry
-	HitReadLimit bool
+	Entries        []Entry
+	HitReadLimit   bool
 }
 
 func (t *Transcript) Keys() []string {
@@ -117,14 +119,14 @@ func (t *Transcript) Describe(max int) []string {
 
 // Opts controls Drive.
 type Opts struct {
-	MaxReads   int    // stop after this many Reads (0: 2*len(input)+64)
-	Audit      bool   // audit each delivered tree
-	Measure    bool   // measure reachable size
-	NoRaw      bool   // skip RawRecord (C01 drives its own history)
-	Exts       []omniparser.Extension
-	Between    func() // called between API calls (scheduler hand-off)
-	OnRecord   func(i int, n *idr.Node)
-	InputName  string
+	MaxReads     int  // stop after this many Reads (0: 2*len(input)+64)
+	Audit        bool // audit each delivered tree
+	Measure      bool // measure reachable size
+	NoRaw        bool // skip RawRecord (C01 drives its own history)
+	Exts         []omniparser.Extension
+	Between      func() // called between API calls (scheduler hand-off)
+	OnRecord     func(i int, n *idr.Node)
+	InputName    string
 	KeepOnlyLast int // keep only the last N entries' payload (long runs); 0 keeps all
 }
 
